@@ -177,7 +177,7 @@ def upStr : UpRef → String
 
 def replyStr : Reply → String
   | .answers r ok => s!"ans:{if ok then "ok" else "fail"}:{recsStr r}"
-  | .rejected => "rej"
+  | .rejected => "ans:ok:-"      -- the client sees an empty answer with rcode success
   | .error e => "err:" ++ errStr e
 
 def keyLine (e : CacheKey × List Rec) : String :=
@@ -194,13 +194,13 @@ def parseSeed (q : Question) (s : String) : Option (CacheKey × List Rec) := do
     let (n, t) ← match sel with
       | "s" => some (canonName q.name, q.qtype)
       | "o" => some ("other.test.".toList, q.qtype)
-      | "t" => some (canonName q.name, q.qtype + 1)
+      | "t" => some (canonName q.name, (q.qtype + 1) % 65536)
       | _ => none
     pure (⟨n, t, scope⟩, recs)
   | _ => none
 
 /-- answer entry `<depth>.<up>=<resp>`; resp = `F` | `<r|q><s|e>/<E|U|N>/<recs>` -/
-def parseAns (q : Question) (s : String) : Option ((Nat × UpRef) × Option Resp) := do
+def parseAns (q? : Option Question) (s : String) : Option ((Nat × UpRef) × Option Resp) := do
   match s.splitOn "=" with
   | [k, v] =>
     match k.splitOn "." with
@@ -214,8 +214,8 @@ def parseAns (q : Question) (s : String) : Option ((Nat × UpRef) × Option Resp
           let isR := fl.toList.contains 'r'
           let ok := fl.toList.contains 's'
           let rq ← match qv with
-            | "E" => some (some q)
-            | "U" => some (some { q with name := upperStr q.name })
+            | "E" => some q?
+            | "U" => some (q?.map fun q => { q with name := upperStr q.name })
             | "N" => some none
             | _ => none
           pure ((d, u), some ⟨isR, rq, recs, ok⟩)
@@ -277,11 +277,12 @@ def handleLine (st : St) (line : String) : St × String :=
         parseList "ans:" ans, st.reqProg, st.respProg with
     | some dst, some nm, some qt, some rx, some seed, some ans, some P, some Q =>
       let q : Question := ⟨nm, qt, rx⟩
-      match seed.mapM (parseSeed q), ans.mapM (parseAns q) with
+      let q? := if hasQ == "q" then some q else none
+      match seed.mapM (parseSeed q), ans.mapM (parseAns q?) with
       | some seed, some tbl =>
         let cfg : Cfg := ⟨st.nUp, P, Q⟩
         let cache0 : Cache := seed.foldl (fun c e => Cache.store c e.1 e.2) []
-        let o := handle cfg cache0 dst (isResp == "1") (if hasQ == "q" then some q else none) (ansFn tbl)
+        let o := handle cfg cache0 dst (isResp == "1") q? (ansFn tbl)
         let keys := (o.cache.map keyLine).mergeSort (fun a b => decide (a ≤ b))
         (st, s!"trace={",".intercalate (o.trace.map upStr)} reply={replyStr o.reply} cache={";".intercalate keys}")
       | _, _ => (st, "bad-op")
